@@ -14,15 +14,17 @@
 //        <src> = 4.<u32> | 6.<u128>: the client socket is bound to that source address before connecting (to
 //        127.0.0.1 for an IPv4 source, to [::1] for an IPv6 source).  The driver runs in a private network
 //        namespace in which every unicast address is local to `lo` (see enter_private_netns), so any source works.
-//        steps:  C:<src>:<M><targethex>,<M><targethex>,..       one connection, sequential keep-alive requests,
-//                                                               M = G (GET) | P (POST, empty body)
+//        steps:  C:<src>:<req>,<req>,..       one connection, sequential keep-alive requests;
+//                    <req> = <M><basetargethex>[~pp.qn.hn.hs.hl.ms]   M = G (GET) | P (POST, empty body); padding of the
+//                    request head: path segment of pp bytes, query of qn bytes, hn headers of hs bytes, one header
+//                    of hl bytes, head written in two pieces ms milliseconds apart (see build_head)
 //                G:<src>:<hexbytes>    send bytes, shut down the write side, drain, close
 //                H:<src>:<hexbytes>    send bytes and leave the socket open until the end of the scenario
 //                R:<src>:<hexbytes>    send bytes, SO_LINGER 0, close (RST)
 //                B:<n>:<src>:<targethex>   n concurrent connections, one GET each
 //                I                     increment the counter (the rendering changes)
 //     -> E                             (add_allowed_address returned Err for some entry)
-//     -> one token per step:  c:<renderhex>:<status>/<bodyhex>,..   b:<renderhex>:<status>/<bodyhex>,..   f   i
+//     -> one token per step:  c:<renderhex>:<status>/<bodyhex>/<head bytes sent>,..   b:<renderhex>:<..>,..   f   i
 //        render = handle.render() taken before the step (and checked to be unchanged after it);
 //        status 0 = no well-formed response (body = error text)
 use ipnet::IpNet;
@@ -243,48 +245,104 @@ fn read_response(st: &mut TcpStream, buf: &mut Vec<u8>) -> Result<(u16, Vec<u8>)
     }
 }
 
-fn show_resp(r: &Result<(u16, Vec<u8>), String>) -> String {
-    match r {
-        Ok((s, b)) => format!("{}/{}", s, hex(b)),
-        Err(e) => format!("0/{}", hex(e.as_bytes())),
+fn show_resp(r: &Resp) -> String {
+    match &r.0 {
+        Ok((s, b)) => format!("{}/{}/{}", s, hex(b), r.1),
+        Err(e) => format!("0/{}/{}", hex(e.as_bytes()), r.1),
     }
 }
 
-fn do_conn(src: IpAddr, port: u16, reqs: &[(char, Vec<u8>)]) -> Vec<Result<(u16, Vec<u8>), String>> {
+/// one request: method, base target and the padding that sets the size of the request head
+#[derive(Clone)]
+struct Req {
+    m: char,
+    base: Vec<u8>,
+    pp: usize, // "/" + pp x 's' appended to the path
+    qn: usize, // "?q=" + qn x 'a' appended as the query
+    hn: usize, // hn headers "X-Pad-<i>: " + hs x 'v'
+    hs: usize,
+    hl: usize, // one header "Cookie: " + hl x 'c'
+    ms: u64,   // the head is written in two pieces with this pause in between
+}
+
+fn parse_req(t: &str) -> Req {
+    let m = t.chars().next().unwrap();
+    let (b, pad) = match t[1..].split_once('~') {
+        Some((b, p)) => (b, p),
+        None => (&t[1..], ""),
+    };
+    let v: Vec<usize> = if pad.is_empty() { vec![] } else { pad.split('.').map(|x| x.parse().unwrap()).collect() };
+    let g = |i: usize| v.get(i).copied().unwrap_or(0);
+    Req { m, base: unhex(b), pp: g(0), qn: g(1), hn: g(2), hs: g(3), hl: g(4), ms: g(5) as u64 }
+}
+
+fn build_head(r: &Req, last: bool) -> Vec<u8> {
+    let mut req = Vec::with_capacity(r.base.len() + r.pp + r.qn + r.hn * (r.hs + 16) + r.hl + 128);
+    req.extend_from_slice(if r.m == 'P' { b"POST " } else { b"GET " });
+    req.extend_from_slice(&r.base);
+    if r.pp > 0 {
+        req.push(b'/');
+        req.resize(req.len() + r.pp, b's');
+    }
+    if r.qn > 0 {
+        req.extend_from_slice(b"?q=");
+        req.resize(req.len() + r.qn, b'a');
+    }
+    req.extend_from_slice(b" HTTP/1.1\r\nHost: c18\r\n");
+    for i in 0..r.hn {
+        req.extend_from_slice(format!("X-Pad-{}: ", i).as_bytes());
+        req.resize(req.len() + r.hs, b'v');
+        req.extend_from_slice(b"\r\n");
+    }
+    if r.hl > 0 {
+        req.extend_from_slice(b"Cookie: ");
+        req.resize(req.len() + r.hl, b'c');
+        req.extend_from_slice(b"\r\n");
+    }
+    if r.m == 'P' {
+        req.extend_from_slice(b"Content-Length: 0\r\n");
+    }
+    if last {
+        req.extend_from_slice(b"Connection: close\r\n");
+    }
+    req.extend_from_slice(b"\r\n");
+    req
+}
+
+type Resp = (Result<(u16, Vec<u8>), String>, usize);
+
+fn do_conn(src: IpAddr, port: u16, reqs: &[Req]) -> Vec<Resp> {
     let mut out = vec![];
     let sock = match connect_from(src, port) {
         Ok(s) => s,
         Err(e) => {
             for _ in reqs {
-                out.push(Err(format!("connect: {:?}", e.kind())));
+                out.push((Err(format!("connect: {:?}", e.kind())), 0));
             }
             return out;
         }
     };
     let mut st: TcpStream = sock.into();
     let mut buf = vec![];
-    for (i, (m, target)) in reqs.iter().enumerate() {
-        let last = i + 1 == reqs.len();
-        let mut req = vec![];
-        req.extend_from_slice(if *m == 'P' { b"POST " } else { b"GET " });
-        req.extend_from_slice(target);
-        req.extend_from_slice(b" HTTP/1.1\r\nHost: c18\r\n");
-        if *m == 'P' {
-            req.extend_from_slice(b"Content-Length: 0\r\n");
+    for (i, r) in reqs.iter().enumerate() {
+        let head = build_head(r, i + 1 == reqs.len());
+        // a server that refuses a head early may reset the connection while it is still being written: the
+        // response, if any, is read regardless of a write error
+        let cut = if r.ms > 0 { head.len() / 2 } else { head.len() };
+        let w = st.write_all(&head[..cut]).and_then(|_| {
+            if r.ms > 0 {
+                std::thread::sleep(Duration::from_millis(r.ms));
+            }
+            st.write_all(&head[cut..])
+        });
+        let mut resp = read_response(&mut st, &mut buf);
+        if let (Err(e), Err(we)) = (&resp, &w) {
+            resp = Err(format!("{} after write: {:?}", e, we.kind()));
         }
-        if last {
-            req.extend_from_slice(b"Connection: close\r\n");
-        }
-        req.extend_from_slice(b"\r\n");
-        if let Err(e) = st.write_all(&req) {
-            out.push(Err(format!("write: {:?}", e.kind())));
-            continue;
-        }
-        let r = read_response(&mut st, &mut buf);
-        if r.is_err() {
+        if resp.is_err() {
             UNANSWERED.fetch_add(1, std::sync::atomic::Ordering::Relaxed);
         }
-        out.push(r);
+        out.push((resp, head.len()));
     }
     out
 }
@@ -360,10 +418,7 @@ fn server_case(rest: &str) -> String {
             }
             "C" => {
                 let src = parse_src(parts[1]);
-                let reqs: Vec<(char, Vec<u8>)> = parts[2]
-                    .split(',')
-                    .map(|r| (r.chars().next().unwrap(), unhex(&r[1..])))
-                    .collect();
+                let reqs: Vec<Req> = parts[2].split(',').map(parse_req).collect();
                 let before = handle.render();
                 let rs = do_conn(src, port, &reqs);
                 let after = handle.render();
@@ -377,12 +432,12 @@ fn server_case(rest: &str) -> String {
             "B" => {
                 let n: usize = parts[1].parse().unwrap();
                 let src = parse_src(parts[2]);
-                let target = unhex(parts[3]);
+                let target = parse_req(&format!("G{}", parts[3]));
                 let before = handle.render();
                 let ths: Vec<_> = (0..n)
                     .map(|_| {
                         let t = target.clone();
-                        std::thread::spawn(move || do_conn(src, port, &[('G', t)]).remove(0))
+                        std::thread::spawn(move || do_conn(src, port, &[t]).remove(0))
                     })
                     .collect();
                 let rs: Vec<_> = ths.into_iter().map(|t| t.join().unwrap()).collect();
